@@ -120,9 +120,18 @@ func H_C13_render_long() {
 	p1 := 2 + vxrt.Choice("first-place", 2)
 	p2 := n - 4 + vxrt.Choice("second-place", 2)
 	k1, k2 := vxrt.Choice("first-kind", 3), vxrt.Choice("second-kind", 3)
+	longLine := vxrt.Bool("one-very-long-line")
 	var aLines, bLines []string
 	for i := 0; i < n; i++ {
 		l := "line " + vxItoa(i) + "\n"
+		if longLine && i == n/2 {
+			// a line longer than any fixed reader buffer, between the two places
+			filler := make([]byte, 5000)
+			for k := range filler {
+				filler[k] = 'x'
+			}
+			l = "long " + string(filler) + "\n"
+		}
 		kind := -1
 		if i == p1 {
 			kind = k1
